@@ -8,7 +8,7 @@ use log::warn;
 
 use crate::{
     backend::decrypt::DecryptWriteBackend,
-    blob::BlobId,
+    blob::{BlobId, BlobType},
     error::RusticResult,
     repofile::indexfile::{IndexFile, IndexPack},
 };
@@ -39,7 +39,7 @@ where
     /// The time the indexer was created.
     created: SystemTime,
     /// The set of indexed blob ids.
-    indexed: Option<BTreeSet<BlobId>>,
+    indexed: Option<BTreeSet<(BlobType, BlobId)>>,
 }
 
 impl<BE: DecryptWriteBackend> Indexer<BE> {
@@ -159,7 +159,7 @@ impl<BE: DecryptWriteBackend> Indexer<BE> {
 
         if let Some(indexed) = &mut self.indexed {
             for blob in &pack.blobs {
-                _ = indexed.insert(blob.id);
+                _ = indexed.insert((blob.tpe, blob.id));
             }
         }
 
@@ -182,9 +182,9 @@ impl<BE: DecryptWriteBackend> Indexer<BE> {
     /// # Arguments
     ///
     /// * `id` - The id to check.
-    pub fn has(&self, id: &BlobId) -> bool {
+    pub fn has(&self, tpe: BlobType, id: &BlobId) -> bool {
         self.indexed
             .as_ref()
-            .is_some_and(|indexed| indexed.contains(id))
+            .is_some_and(|indexed| indexed.contains(&(tpe, *id)))
     }
 }
